@@ -234,7 +234,14 @@ Definition interface_ok (double : bool) (ins outs : list jleaf) (in_names out_na
       forallb (fun p => leaf_ok true double (fst p) (snd p)) (combine ins (firstn (List.length ins) (og_inputs g))) &&
       (List.length (og_outputs g) =? List.length outs)%nat &&
       forallb (fun p => leaf_ok false double (fst p) (snd p)) (combine outs (og_outputs g)) &&
-      names_distinct (map vi_name (og_inputs g) ++ map vi_name (og_outputs g)) &&
+      (* input names are always distinct; outputs must be distinct (from each other and from the inputs) exactly
+         when the user supplies output names ("user-supplied names ... never collide"): without them an output
+         may legitimately BE an input or repeat an earlier output (one value, one name) *)
+      names_distinct (map vi_name (og_inputs g)) &&
+      match out_names with
+      | Some _ => names_distinct (map vi_name (og_inputs g) ++ map vi_name (og_outputs g))
+      | None => true
+      end &&
       match in_names with
       | Some ns => list_eqb String.eqb ns (map vi_name (firstn (List.length ins) (og_inputs g)))
       | None => forallb (fun p => String.eqb (vi_name (snd p)) (positional_name (fst p) (jl_nchw (nth (fst p) ins (mkJL 0 [] false)))))
@@ -253,13 +260,15 @@ Theorem interface_ok_spec double ins outs inn outn np m :
     List.length (og_inputs g) = (List.length ins + np)%nat /\ List.length (og_outputs g) = List.length outs /\
     (forall j v, In (j, v) (combine ins (firstn (List.length ins) (og_inputs g))) -> leaf_ok true double j v = true) /\
     (forall j v, In (j, v) (combine outs (og_outputs g)) -> leaf_ok false double j v = true) /\
-    names_distinct (map vi_name (og_inputs g) ++ map vi_name (og_outputs g)) = true.
+    names_distinct (map vi_name (og_inputs g)) = true /\
+    (outn <> None -> names_distinct (map vi_name (og_inputs g) ++ map vi_name (og_outputs g)) = true).
 Proof.
   unfold interface_ok. destruct (graph_by_id m 0) as [g|]; [|discriminate]. intro H.
   repeat (apply andb_prop in H as [H ?]).
   exists g. split; auto.
   repeat match goal with Hx : (_ =? _)%nat = true |- _ => apply Nat.eqb_eq in Hx end.
-  split; auto. split; auto. split; [|split]; auto.
+  split; auto. split; auto. split; [|split; [|split]]; auto.
+  3: { intro Hn. destruct outn; [assumption | congruence]. }
   - intros j v Hin. match goal with Hf : forallb _ (combine ins _) = true |- _ => rewrite forallb_forall in Hf; apply (Hf (j, v) Hin) end.
   - intros j v Hin. match goal with Hf : forallb _ (combine outs _) = true |- _ => rewrite forallb_forall in Hf; apply (Hf (j, v) Hin) end.
 Qed.
